@@ -1,6 +1,7 @@
 package PVM
 
 import (
+	"bytes"
 	"os"
 	"testing"
 
@@ -27,6 +28,12 @@ func FuzzVerifC03(f *testing.F) {
 	targets := vTargets()
 	f.Fuzz(func(t *testing.T, b []byte, sel uint8, gas uint16) {
 		if len(b) > 1<<16 {
+			return
+		}
+		if bytes.IndexByte(b, 101) >= 0 {
+			// opcode 101 (sbrk) is the subject of the open finding C03-F2 (one instruction maps up to 4 GiB eagerly): a fuzzing
+			// worker that meets it dies of memory exhaustion and the coordinator cannot say on which input. Like the clean strata of
+			// the structured part, this part stays clear of the open finding; sbrk has its own trigger stratum.
 			return
 		}
 		tg := targets[int(sel)%len(targets)]
